@@ -6,6 +6,7 @@ package db19
 import (
 	"fmt"
 	"math/rand/v2"
+	"os"
 	"runtime"
 	"sort"
 	"strings"
@@ -75,6 +76,7 @@ type vfTxn struct {
 	Big         bool // limit-exceeding transaction, operations not recorded
 	// read transactions: number of commits applied before the call / after the return
 	c0, c1  int
+	mustEnd int      // largest commit sequence number whose Complete() had returned success before this reader started
 	Digests []string // full-database digests taken by readers
 	ut      *UpdateTran
 }
@@ -113,16 +115,18 @@ type vfProfile struct {
 	abortPct  int
 	bigTxn    string // "" / "write" / "read": one transaction that exceeds a limit
 	yieldPct  int    // chance to yield/sleep between ops
+	file      bool   // file database: close and reopen at the end, compare
 }
 
 // ---- simulator ---------------------------------------------------------------------------------
 
 type vfSim struct {
-	p    vfProfile
-	rep  *vk.Report
-	db   *Database
-	sc   *vfSchema
-	hist int
+	p      vfProfile
+	rep    *vk.Report
+	db     *Database
+	sc     *vfSchema
+	hist   int
+	dbfile string
 
 	mu    sync.Mutex // guards txns, trans
 	txns  []*vfTxn
@@ -135,12 +139,13 @@ type vfSim struct {
 	cache    map[*meta.Info]*vfTabContent
 	problems []string // structural problems seen at transitions
 
-	diverged bool         // the model no longer mirrors the real database (after a reported outcome mismatch)
-	applied  atomic.Int64 // commits applied
-	gateRand *rand.Rand   // merger goroutine only
-	gateHeld atomic.Int64
-	gateSeen atomic.Int64 // gates during which >=1 commit went through
-	stopping atomic.Bool
+	diverged  bool         // the model no longer mirrors the real database (after a reported outcome mismatch)
+	retMaxEnd atomic.Int64 // largest End of a writer whose Complete() has returned success
+	applied   atomic.Int64 // commits applied
+	gateRand  *rand.Rand   // merger goroutine only
+	gateHeld  atomic.Int64
+	gateSeen  atomic.Int64 // gates during which >=1 commit went through
+	stopping  atomic.Bool
 }
 
 type vfTabContent struct {
@@ -171,7 +176,17 @@ func vfPackStr(s string) string {
 
 func vfNewSim(p vfProfile, rep *vk.Report, hist int) *vfSim {
 	s := &vfSim{p: p, rep: rep, hist: hist, byUT: map[*UpdateTran]*vfTxn{}, cache: map[*meta.Info]*vfTabContent{}}
-	s.db = CreateDb(stor.HeapStor(32 * 1024))
+	if p.file {
+		s.dbfile = fmt.Sprintf("vfsim-%s-%d.db", p.prop, hist)
+		os.Remove(s.dbfile)
+		db, err := CreateDatabase(s.dbfile)
+		if err != nil {
+			panic("vf: cannot create " + s.dbfile + ": " + err.Error())
+		}
+		s.db = db
+	} else {
+		s.db = CreateDb(stor.HeapStor(32 * 1024))
+	}
 	s.sc = &vfSchema{defs: map[string]*vfTabDef{}, specs: map[string][]ixkey.Spec{}}
 	for _, d := range vfDefs(p.fkMode) {
 		sch := &schema.Schema{Table: d.name, Columns: append([]string(nil), d.cols...)}
@@ -641,7 +656,17 @@ func (s *vfSim) finish(r *rand.Rand, t *vfTxn) {
 		t.Committed = true
 		t.End = ut.ct.end
 		if t.Wrote {
+			for {
+				cur := s.retMaxEnd.Load()
+				if int64(t.End) <= cur || s.retMaxEnd.CompareAndSwap(cur, int64(t.End)) {
+					break
+				}
+			}
 			s.rep.Count("txn.committed_writer", 1)
+			if s.p.readers > 0 && r.IntN(3) == 0 {
+				// a read transaction started right after success was reported must see this commit
+				s.runReader(r, 3000+t.Worker, t.Seq)
+			}
 		} else {
 			s.rep.Count("txn.committed_nowrite", 1)
 		}
@@ -666,6 +691,7 @@ func (s *vfSim) finish(r *rand.Rand, t *vfTxn) {
 func (s *vfSim) runReader(r *rand.Rand, worker, seq int) {
 	t := &vfTxn{Worker: worker, Seq: seq, ReadOnly: true}
 	t.c0 = int(s.applied.Load())
+	t.mustEnd = int(s.retMaxEnd.Load())
 	rt := s.db.NewReadTran()
 	t.c1 = int(s.applied.Load())
 	s.mu.Lock()
@@ -778,9 +804,34 @@ func (s *vfSim) run(seed uint64) {
 	} else if ckErr != nil {
 		s.structural("db.Check(full): " + ckErr.Error())
 	}
-	s.db.ck.Stop()
-	s.db.ck = nil
-	s.db.Close()
+	if s.dbfile == "" {
+		s.db.ck.Stop()
+		s.db.ck = nil
+		s.db.Close()
+	} else {
+		// clean shutdown, reopen: the stored btrees alone must give the same logical content
+		s.db.Close()
+		p, _ := vk.Catch(func() {
+			db2, err := OpenDatabase(s.dbfile)
+			if err != nil {
+				s.structural("REOPEN: open after clean close failed: " + err.Error())
+				return
+			}
+			defer db2.Close()
+			if d := s.digestVia(db2.NewReadTran()); d != finalDigest {
+				s.structural(fmt.Sprintf("REOPEN: content after close and reopen differs from the final state: before %q after %q", vk.Trunc(finalDigest, 1500), vk.Trunc(d, 1500)))
+			}
+			if err := db2.Check(true); err != nil {
+				s.structural("REOPEN: full check after reopen: " + err.Error())
+			}
+			s.rep.Count("reopen_compared", 1)
+		})
+		if p != nil {
+			s.structural(fmt.Sprint("REOPEN: panic: ", p))
+		}
+		os.Remove(s.dbfile)
+		os.Remove(s.dbfile + ".bak")
+	}
 	s.judge(finalDigest)
 }
 
@@ -929,6 +980,9 @@ func (s *vfSim) judge(finalDigest string) {
 		if strings.HasPrefix(pr, "LIMIT:") {
 			cl, props = "limit-exceeding-transaction-committed", "C03"
 		}
+		if strings.HasPrefix(pr, "REOPEN:") {
+			cl, props = "persisted-state-differs-after-reopen", "C16 C06 C03"
+		}
 		if strings.Contains(pr, "Nrows") || strings.Contains(pr, "Size") || strings.Contains(pr, "deltas") {
 			cl = "statistics-mismatch"
 			props = "C03 C16 C06"
@@ -1039,12 +1093,39 @@ func (s *vfSim) judge(finalDigest string) {
 		if lo < 0 {
 			lo = 0
 		}
+		// real-time order: commits reported successful before the reader started must be visible to it
+		must := 0
+		for k, e := range ends {
+			if e == t.mustEnd {
+				must = k
+			}
+		}
 		ok := false
+		stale := false
 		for k := lo; k <= hi && k < len(digests); k++ {
 			if digests[k] == t.Digests[0] {
-				ok = true
-				break
+				if k >= must {
+					ok = true
+					break
+				}
+				stale = true
 			}
+		}
+		if !ok && stale {
+			// make sure no later prefix state has the same content (then the reader may well have seen that one)
+			for k := must; k <= hi && k < len(digests); k++ {
+				if digests[k] == t.Digests[0] {
+					ok = true
+				}
+			}
+			if !ok {
+				s.violate("C03 C02", "read-transaction-misses-commit-reported-before-it-started", t.id(),
+					map[string]any{"must_see_commit_end": t.mustEnd, "window": []int{lo, hi}, "seen": vk.Trunc(fmt.Sprintf("%q", t.Digests[0]), 2000)})
+				ok = true // reported
+			}
+		}
+		if t.mustEnd != 0 {
+			rep.Count("reader.started_after_reported_commit", 1)
 		}
 		if !ok && hi < len(digests) {
 			s.violate("C02 C03", "read-transaction-not-a-committed-prefix-state", t.id(),
